@@ -2,6 +2,55 @@
 #![allow(unused_imports, dead_code)]
 use serde_json::{json, Value};
 
-pub fn dispatch(_cmd: &str, _req: &Value) -> Option<Value> {
-    None
+use crate::{errs, options, s};
+
+// c16_rq {src}: source -> PL -> RQ, the RQ as JSON, and the same RQ after one trip through its JSON form
+//   {ok: rq_json, rt: rq_json_after(to_rq . from_rq), rt_value_eq: bool} | {err: [...]}
+fn cmd_c16_rq(req: &Value) -> Value {
+    let rq = match prqlc::prql_to_pl(s(req, "src")).and_then(prqlc::pl_to_rq) {
+        Ok(rq) => rq,
+        Err(e) => return errs(e),
+    };
+    let j1 = match prqlc::json::from_rq(&rq) {
+        Ok(j) => j,
+        Err(e) => return json!({"ser_err": errs(e)}),
+    };
+    let v1 = serde_json::from_str::<Value>(&j1).unwrap_or(Value::Null);
+    match prqlc::json::to_rq(&j1) {
+        Err(e) => json!({"ok": v1, "rt_err": errs(e)}),
+        Ok(rq2) => {
+            let eq = rq2 == rq;
+            match prqlc::json::from_rq(&rq2) {
+                Ok(j2) => json!({"ok": v1, "rt": serde_json::from_str::<Value>(&j2).unwrap_or(Value::Null), "rt_value_eq": eq}),
+                Err(e) => json!({"ok": v1, "rt_err": errs(e)}),
+            }
+        }
+    }
+}
+
+// c16_rq2sql {rq: <json value>, target?}: RQ JSON -> RQ -> SQL (the staged API's second half)
+fn cmd_c16_rq2sql(req: &Value) -> Value {
+    let o = match options(req) {
+        Ok(o) => o,
+        Err(v) => return v,
+    };
+    let text = match req.get("rq") {
+        Some(v) => v.to_string(),
+        None => return json!({"bad_request": "rq missing"}),
+    };
+    match prqlc::json::to_rq(&text) {
+        Err(e) => json!({"de_err": errs(e)}),
+        Ok(rq) => match prqlc::rq_to_sql(rq, &o) {
+            Ok(sql) => json!({ "ok": sql }),
+            Err(e) => errs(e),
+        },
+    }
+}
+
+pub fn dispatch(cmd: &str, req: &Value) -> Option<Value> {
+    match cmd {
+        "c16_rq" => Some(cmd_c16_rq(req)),
+        "c16_rq2sql" => Some(cmd_c16_rq2sql(req)),
+        _ => None,
+    }
 }
